@@ -198,6 +198,13 @@ def build(seed, tier, ending, status, mode, g, atc_exit=None, sweep=False):
             return {'k': 'probe', 'id': ident, 'form': g.choice(['%', 'run', '$'])}
         if r < 0.6:
             return {'k': 'fault', 'id': '%sq%d' % (casegen.PREFIX[phase], n[0])}
+        if r < 0.72:
+            # a program whose output is used as a text: what it writes on the OTHER channel (and its exit code) is
+            # nobody's business - least of all that of Exactly's own stdout / stderr
+            procs['chatty'] = {'exit': g.choice([0, 1, 3]), 'stdout': 'chatty: written on stdout\n',
+                               'stderr': 'chatty: written on stderr\n'}
+            return {'k': 'real', 'text': 'file -rel-tmp chatty%d.txt = -%s-from -ignore-exit-code %% chatty'
+                                         % (n[0], g.choice(['stderr', 'stdout', 'stderr']))}
         return {'k': 'real', 'text': g.choice(['def string S%d = s', 'env E%d = v', 'file -rel-tmp f%d.txt = "x"',
                                                'dir -rel-act d%d']) % n[0]}
 
